@@ -117,6 +117,7 @@ def run(ctx):
     feats_default = [0, 0]
     feats_src = [0, 0]
     feats_sql, feats_cflag, feats_dummy = [], [], []
+    real_cmds = set()
     tags, outcomes = Counter(), Counter()
     distinct = set()
     product_rows = set()
@@ -350,8 +351,13 @@ def run(ctx):
             outcomes["cflag " + line.split()[1].split(":")[0] + (":cli-secret" if "cli-secret" in line else "") + (" (secret set)" if secret else "")] += 1
             distinct.add(("cflag", tuple(op.get("names", [])), tuple(op.get("args", [])), op.get("envtoken")))
             feats_cflag.append(tuple(names))
+            if op.get("cmd"):
+                real_cmds.add(op["cmd"])
+            if line == "cflag no-such-command":
+                violation("client-command-missing:" + op.get("cmd", ""), f"command {op.get('cmd')!r} is not in the tree of CreateCommand any more", opl)
+                continue
             if secret and not line.startswith("cflag refuse:cli-secret:"):
-                violation("cli-secret-accepted:client:" + secret[0], f"CLI client command accepted the secret flag(s) {secret} on the command line (flag set {op.get('names')}): {line}", opl)
+                violation(("cli-secret-accepted:client-command:" + op["cmd"].replace(" ", "-")) if op.get("cmd") else ("cli-secret-accepted:client:" + secret[0]), f"CLI client command {op.get('cmd', '(synthetic)')!r} accepted the secret flag(s) {secret} on the command line (flag set {op.get('names')}): {line}", opl)
             elif secret and bytes.fromhex(line.rsplit(":", 1)[1]).decode("latin1") not in secret:
                 violation("cli-secret-misreported", f"refusal names a flag that is not a secret set on the command line: {line} (set: {names})", opl)
             elif not secret and not line.startswith("cflag ok token="):
@@ -397,6 +403,7 @@ def run(ctx):
         ctx.oblige("sql-connection-rows-run", len(set(feats_sql)) >= 20 and (True, "lenient", "") in feats_sql,
                    f"{len(feats_sql)} connection-string rows, {len(set(feats_sql))} distinct (mode, data-directory history, adapter) incl. strict + used data directory + no string")
         ctx.oblige("dummy-history-rows-run", feats_dummy.count(True) >= 10 and feats_dummy.count(False) >= 10, f"{len(feats_dummy)} histories on the dummy means")
+        ctx.oblige("real-client-commands-run", len(real_cmds) >= 15, f"{len(real_cmds)} commands of the real command tree offer --token; each run with it on the command line")
         ctx.oblige("client-flag-rows-run", len(feats_cflag) >= 50 and ("token",) in feats_cflag and any("token" in f and len(f) > 1 for f in feats_cflag),
                    f"{len(feats_cflag)} CLI-client flag sets incl. --token alone and combined")
         ctx.oblige("default-strict-rows-run", feats_default[0] >= 8, f"{feats_default[0]} configurations without a strictmode key")
